@@ -310,6 +310,11 @@ def prepare_dump(data: IOData, allow_changes: bool, filename: str) -> IOData:
         raise PrepareDumpError("The Molekel format requires an orbital basis set.", filename)
     if data.mo.kind == "generalized":
         raise PrepareDumpError("Cannot write Molekel file with generalized orbitals.", filename)
+    if data.mo.occs is not None and abs(data.mo.nelec - np.round(data.mo.nelec)) > 1e-7:
+        # $CHAR_MULT holds an integer charge, from which the loader derives the electron count.
+        raise PrepareDumpError(
+            "Cannot write Molekel file with a fractional number of electrons.", filename
+        )
     data = prepare_unrestricted_aminusb(data, allow_changes, filename, "Molekel")
     return prepare_segmented(data, False, allow_changes, filename, "Molekel")
 
